@@ -396,6 +396,18 @@ func (w *roundWalker) classify(v ssa.Value, env *mpEnv, at *ssa.BasicBlock) (kin
 			}
 		}
 	}
+	// something else the program asks about an extension - a predicate of the module, the dynamic type of a builder: an
+	// atom of its own. The documented rules do not depend on it, so both of its answers must lead to what the table says.
+	switch x := v.(type) {
+	case *ssa.Call:
+		if f := x.Call.StaticCallee(); f != nil && w.c.InModule(f) && f.Signature.Results().Len() == 1 && isBoolType(f.Signature.Results().At(0).Type()) {
+			return ckAtom, "other:" + w.c.FuncKey(f) + "()", true
+		}
+	case *ssa.Extract:
+		if ta, ok := x.Tuple.(*ssa.TypeAssert); ok && ta.CommaOk && x.Index == 1 {
+			return ckAtom, "other:is-" + typeShort(w.c, ta.AssertedType), true
+		}
+	}
 	return ckUnknown, "", false
 }
 
